@@ -8,7 +8,7 @@ from ..sub import Sub
 
 RULE = ("Non-trivial: D >= 2 with |correlation| >= 0.5 in some component and R >= 2, so that the pairing of Cholesky factors with "
         "components is visible.")
-BOUNDS = {"R": "1..4", "D": "1..4", "kappa": "<=1e4", "n": "1, 7, 2000 (structural); 200000 (statistical)"}
+BOUNDS = {"R": "1..7 and 20", "D": "1..6 and 17, 24", "kappa": "<=1e4", "n": "1, 7, 33, 2000, 4097 (structural); 200000 (statistical)"}
 ASSUMPTIONS = [
     "structural oracle: whitening the draws of component r with numpy's Cholesky factor of Sigma_r reproduces, as a multiset, the "
     "standard-normal stream jax.random.normal generates from the same key (any arrangement of the stream is accepted)",
@@ -18,7 +18,7 @@ ASSUMPTIONS = [
 
 
 def _pool(tier):
-    base = [(1, 1), (2, 2), (3, 3), (2, 4), (4, 2), (3, 1), (6, 2), (5, 3)]
+    base = [(1, 1), (2, 2), (3, 3), (2, 4), (4, 2), (3, 1), (6, 2), (5, 3), (17, 2), (2, 20), (24, 1)]
     if tier == "thorough":
         base += [(4, 4), (1, 3), (4, 1), (2, 3), (7, 1), (6, 3)]
     return base
@@ -30,10 +30,16 @@ def _strategy(stat):
         def s(draw):
             D, R = draw(st.sampled_from(shapes))
             kappa = draw(st.sampled_from([10.0, 1e3, 1e4]))
-            n = 200000 if stat else draw(st.sampled_from([1, 7, 2000]))
+            n = 200000 if stat else draw(st.sampled_from([1, 7, 2000, 33, 4097]))
             case = {"D": D, "R": R, "n": n, "stat": stat, "p": draw(gen.measure_params("pdf", R, D, kappa)),
                     "seed": draw(st.integers(0, 2**31 - 1)), "seed2": draw(st.integers(0, 2**31 - 1)),
                     "typed_key": draw(st.booleans()), "diag": False}
+            # far-mean regime: the mean lies 1e4 / 1e6 standard deviations away from the origin
+            far = draw(st.sampled_from([0.0] * 5 + [1e4, 1e6]))
+            if far:
+                sd = np.sqrt(np.einsum("rii->ri", np.asarray(case["p"]["Sigma"], float)))
+                case["p"] = dict(case["p"], mu=np.asarray(case["p"]["mu"], float) + far * sd * np.where(draw(gen.arr(sd.shape, -1, 1)) < 0, -1.0, 1.0))
+            case["far"] = far
             # the law is that of the object's CURRENT parameters: sometimes the density is sampled, then updated in
             # place, then sampled again
             if not stat and draw(st.sampled_from([False, False, True])):
@@ -84,12 +90,14 @@ def _statistical(fails, x, mu, Sig, tag):
             cc = (w[lagk:].T @ w[:-lagk]) / np.sqrt(n - lagk)
             if np.max(np.abs(cc)) > worst_dep:
                 worst_dep, which = float(np.max(np.abs(cc))), f"lag {lagk}"
-        for name, other in (("reversed order", w[::-1]), ("half shift", np.roll(w, n // 2, axis=0))):
+        for name, other in (("reversed order", w[::-1]), ("half shift", np.roll(w, n // 2, axis=0)), ("third shift", np.roll(w, n // 3, axis=0)),
+                            ("shift 4096", np.roll(w, 4096, axis=0))):
             if n % 2 == 1 and name == "reversed order":
                 a_, b_ = np.delete(w, n // 2, 0), np.delete(other, n // 2, 0)  # the middle draw pairs with itself
             else:
                 a_, b_ = w, other
-            cc = (a_.T @ b_) / np.sqrt(a_.shape[0]) / np.sqrt(2.0)  # each pair is counted twice
+            # reversal and the half shift are involutions (each pair is counted twice); the other shifts are not
+            cc = (a_.T @ b_) / np.sqrt(a_.shape[0]) / (np.sqrt(2.0) if name in ("reversed order", "half shift") else 1.0)
             if np.max(np.abs(cc)) > worst_dep:
                 worst_dep, which = float(np.max(np.abs(cc))), name
         if worst_dep > 6:
@@ -190,7 +198,7 @@ def _nontrivial(case):
 
 
 def _labels(case):
-    out = [f"n={case['n']}", "typed_key" if case["typed_key"] else "legacy_key", "after_update" if case.get("update") is not None else "fresh"]
+    out = [f"n={case['n']}", "typed_key" if case["typed_key"] else "legacy_key", "after_update" if case.get("update") is not None else "fresh", f"far_mean={case.get('far', 0.0):g}"]
     if "_structural" in case:
         out.append("structural_match" if case["_structural"] else "structural_mismatch->statistical")
     return out
